@@ -276,6 +276,14 @@ func (g *GenCtx) Gen(d *Desc, v reflect.Value, ft string) {
 			g.Gen(d.Elem, s.Index(i), "p")
 		}
 		v.Set(s)
+	case KCustom:
+		g.depth--
+		g.Gen(d.Elem, v, ft)
+		g.depth++
+		g.customDomain(d, v)
+	case KDictAugE: // only the empty dictionary can be written: mostly empty, the extra random
+		g.Gen(d.Elem3, v.FieldByName("extra"), "p")
+	case KDictAug:
 	case KHighload:
 		n := g.Rng.Intn(4)
 		if n == 0 {
@@ -332,10 +340,38 @@ func (g *GenCtx) genNamed(d *Desc, v reflect.Value) {
 	if body == nil {
 		return
 	}
+	var cu *Desc
+	if body.Kind == KCustom {
+		cu, body = body, body.Elem
+	}
 	if body.Kind == KSum {
 		g.genSum(body, v, d.Name)
 	} else {
 		g.genStruct(body, v)
+	}
+	if cu != nil {
+		g.customDomain(cu, v)
+	}
+}
+
+// customDomain moves a generated value into the domain of a flag-dependent layout
+func (g *GenCtx) customDomain(d *Desc, v reflect.Value) {
+	if d.Name == "tlb.McBlockExtra" {
+		// config:key_block?ConfigParams (the type has no MarshalTLB: the reflection encoder writes Config whatever
+		// key_block says; the decoder reads it only in a key block)
+		if !v.FieldByName("KeyBlock").Bool() {
+			c := v.FieldByName("Config")
+			c.Set(reflect.Zero(c.Type()))
+		}
+	}
+	if d.Name == "tlb.McStateExtraOther" {
+		// flags <= 1, block_create_stats present iff flags = 1
+		fl := v.FieldByName("Flags")
+		fl.SetUint(uint64(g.class("mcStateExtraOther.flags", 2)))
+		if fl.Uint() != 1 {
+			st := v.FieldByName("BlockCreateStats")
+			st.Set(reflect.Zero(st.Type()))
+		}
 	}
 }
 
